@@ -545,6 +545,10 @@ def main():
                         if m and prop in m.group(1).replace(' ', '').split(','):
                             clause_count += 1
                             if len(samples) < 8: samples.append(dict(unit=r['unit'], function=b['owner'] + '::' + b['name'], obligation=ul[ln - 1].strip()[:300], backend='verus/z3'))
+            sigs = [b for b in r.get('blocks', []) if b['kind'] == 'SIG']
+            if sigs:
+                assumptions.append('%s: %d ASSUMED contracts of /repo functions (external_body stubs; proved in another unit or checked by Kani / not at all) whose parameter names, order%s and return type are compared with the current source on every run: %s' % (
+                    r['unit'], len(sigs), ', types', ', '.join(sorted({(b['owner'] + '::' if b['owner'] != '-' else '') + b['name'] for b in sigs}))))
             for name, lns in sorted(r.get('cheats', {}).items()):
                 assumptions.append('%s: %d x %s in the assumed environment / specs (unit lines %s%s)' % (r['unit'], len(lns), name, ','.join(map(str, lns[:12])), ',...' if len(lns) > 12 else ''))
             backends.append('verus 0.2026.09.13 / z3: unit %s: %d functions verified, %d errors besides the %d vacuity canaries that must fail, smt %d ms, wall %.1f s' % (
